@@ -1256,8 +1256,17 @@ static void gen_expr(Node *node) {
     error_tok(node->tok, "invalid expression");
   }
   case TY_LDOUBLE: {
+    // The left operand waits in memory, not on the x87 register stack,
+    // which has eight slots and is assumed empty by a called function.
     gen_expr(node->lhs);
+    println("  sub $16, %%rsp");
+    println("  fstpt (%%rsp)");
+    depth += 2;
     gen_expr(node->rhs);
+    println("  fldt (%%rsp)");
+    println("  fxch %%st(1)");
+    println("  add $16, %%rsp");
+    depth -= 2;
 
     switch (node->kind) {
     case ND_ADD:
